@@ -769,8 +769,10 @@ async fn probe_storage(input: &Value) {
 		let r = crate::storage::verif_write(&fm, &t, &data).await;
 		res.push(match r {
 			Ok(p) => {
-				// tokio finishes the write on a blocking thread after write_all returned:
-				// look at the file until two consecutive observations agree
+				// what the file holds the moment write_file has returned (this is what a
+				// hook or another process started next would read) ...
+				let at_return = observe_file(&p);
+				// ... and once it no longer changes (two consecutive observations agree)
 				let mut seen = observe_file(&p);
 				for _ in 0..100 {
 					tokio::time::sleep(Duration::from_millis(3)).await;
@@ -780,7 +782,7 @@ async fn probe_storage(input: &Value) {
 					}
 					seen = again;
 				}
-				json!({"ok": true, "type": t, "path": p, "len": len, "fill": fill, "sha": sha256_hex(&data), "seen": seen})
+				json!({"ok": true, "type": t, "path": p, "len": len, "fill": fill, "sha": sha256_hex(&data), "seen": seen, "at_return": at_return})
 			}
 			Err(e) => json!({"ok": false, "type": t, "error": e.message}),
 		});
